@@ -83,10 +83,18 @@ impl WaitGroup {
 
     // Slow path: Wait for notification.
     loop {
+      // Register for the notification first and re-check the count, so that a done() that
+      // reaches zero between the check above and the await below is not lost.
+      let notified = self.notify_on_zero.notified();
+      tokio::pin!(notified);
+      notified.as_mut().enable();
+      if self.count.load(Ordering::Acquire) == 0 {
+        return;
+      }
       #[cfg(rzmq_verif)]
       crate::verif::apoint("wg.wait.after_check").await;
       // Wait until notified. notified() consumes a permit.
-      self.notify_on_zero.notified().await;
+      notified.await;
 
       // Check count again after notification (spurious wakeup or race check).
       if self.count.load(Ordering::Acquire) == 0 {
